@@ -36,7 +36,9 @@ def run():
             errors.append('%s: translator crashed: %r' % (name, e))
             continue
         errors += ['%s: %s' % (name, e) for e in errs]
-        write_if_changed(name, HEADER + text)
+        lines = text.split('\n')
+        k = max([i for i, l in enumerate(lines) if l.startswith('import ')] + [-1]) + 1
+        write_if_changed(name, '\n'.join(lines[:k] + [HEADER.rstrip('\n')] + lines[k:]))
     return errors
 
 
